@@ -31,14 +31,69 @@ def types():
     out.append(ir.union_("DoubleUnion", [ir.field("d", ir.prim("DOUBLE")), ir.field("l", ir.list_(ir.prim("DOUBLE"))),
                                          ir.field("leaf", ir.ref("DoubleLeaf", PKG)), ir.field("s", ir.prim("STRING")),
                                          ir.field("o", ir.optional(ir.prim("DOUBLE")))], package=PKG))
+    out.append(ir.alias_("OptStrAlias", ir.optional(ir.prim("STRING")), package=PKG))
+    out.append(ir.alias_("OptInnerAlias", ir.optional(ir.ref("Inner", PKG)), package=PKG))
+    out.append(ir.alias_("SafeStr", ir.prim("STRING"), safety="safe", package=PKG))
+    out.append(ir.object_("SafeObj", [ir.field("a", ir.prim("STRING"), "safe"), ir.field("c", ir.ref("Color", PKG))], package=PKG))
     # a recursive type holding doubles (has_double's cycle-breaking memo)
     out.append(ir.object_("RecA", [ir.field("b", ir.optional(ir.ref("RecB", PKG))), ir.field("n", ir.prim("INTEGER"))], package=PKG))
     out.append(ir.object_("RecB", [ir.field("a", ir.optional(ir.ref("RecA", PKG))), ir.field("d", ir.prim("DOUBLE"))], package=PKG))
     return out
 
 
+def P(n):
+    return ir.prim(n)
+
+
 def services():
-    return []
+    R = lambda n: ir.ref(n, PKG)
+    eps = [
+        # C04/C07: every PLAIN type as a path parameter, with literals in between
+        ir.endpoint("pathParams", "GET", "/m/path/{s}/lit/{i}/{d}/{b}/{u}/{r}/{l}/{t}/{e}/{a}", [
+            ir.arg("s", P("STRING"), "path"), ir.arg("i", P("INTEGER"), "path"), ir.arg("d", P("DOUBLE"), "path"),
+            ir.arg("b", P("BOOLEAN"), "path"), ir.arg("u", P("UUID"), "path"), ir.arg("r", P("RID"), "path"),
+            ir.arg("l", P("SAFELONG"), "path"), ir.arg("t", P("DATETIME"), "path"), ir.arg("e", R("Color"), "path"),
+            ir.arg("a", R("PlStr"), "path")], returns=P("STRING")),
+        ir.endpoint("queryParams", "GET", "/m/query", [
+            ir.arg("qs", P("STRING"), "query", "qs"), ir.arg("qo", ir.optional(P("INTEGER")), "query", "q-opt"),
+            ir.arg("ql", ir.list_(P("DOUBLE")), "query", "ql"), ir.arg("qset", ir.set_(P("STRING")), "query", "qset"),
+            ir.arg("qe", ir.optional(R("Color")), "query", "qe"), ir.arg("qa", ir.optional(R("PlDbl")), "query", "qa"),
+            ir.arg("qoa", R("OptStrAlias"), "query", "qoa"), ir.arg("qb", ir.list_(P("BOOLEAN")), "query", "qb")], returns=P("STRING")),
+        ir.endpoint("headers", "GET", "/m/headers", [
+            ir.arg("hs", P("STRING"), "header", "X-Str"), ir.arg("ho", ir.optional(P("INTEGER")), "header", "X-Opt"),
+            ir.arg("hu", P("UUID"), "header", "X-Uuid"), ir.arg("ha", R("PlStr"), "header", "X-Alias"),
+            ir.arg("he", ir.optional(R("Color")), "header", "X-Enum"), ir.arg("hd", P("DOUBLE"), "header", "X-Dbl")], returns=P("STRING")),
+        ir.endpoint("authHeader", "GET", "/m/auth", [ir.arg("q", P("STRING"), "query", "q")], returns=P("STRING"), auth="header"),
+        ir.endpoint("authCookie", "GET", "/m/cookie", [], returns=P("STRING"), auth="sid"),
+        ir.endpoint("jsonBody", "POST", "/m/body", [ir.arg("body", R("DoubleBag"), "body")], returns=R("DoubleBag")),
+        ir.endpoint("optBody", "POST", "/m/optbody", [ir.arg("body", ir.optional(R("Inner")), "body")], returns=ir.optional(R("Inner"))),
+        ir.endpoint("aliasOptBody", "POST", "/m/aliasoptbody", [ir.arg("body", R("OptInnerAlias"), "body")], returns=R("OptInnerAlias")),
+        ir.endpoint("listReturn", "GET", "/m/list", [ir.arg("n", P("INTEGER"), "query", "n")], returns=ir.list_(P("STRING"))),
+        ir.endpoint("setReturn", "GET", "/m/set", [ir.arg("n", P("INTEGER"), "query", "n")], returns=ir.set_(P("DOUBLE"))),
+        ir.endpoint("mapReturn", "GET", "/m/map", [ir.arg("n", P("INTEGER"), "query", "n")], returns=ir.map_(P("STRING"), P("DOUBLE"))),
+        ir.endpoint("binaryBody", "POST", "/m/bin", [ir.arg("body", P("BINARY"), "body")], returns=P("BINARY")),
+        ir.endpoint("optBinaryReturn", "GET", "/m/optbin", [ir.arg("n", P("INTEGER"), "query", "n")], returns=ir.optional(P("BINARY"))),
+        ir.endpoint("unit", "POST", "/m/unit", [ir.arg("body", P("STRING"), "body")]),
+        ir.endpoint("limited", "POST", "/m/limited", [ir.arg("body", P("STRING"), "body")], returns=P("STRING"),
+                    tags=["server-limit-request-size: 48b"]),
+        # C09 / C19: every mix of safe and non-safe arguments; names whose Rust spelling differs
+        ir.endpoint("safeMix", "POST", "/m/safe/{safePath}/{unsafePath}", [
+            ir.arg("safePath", P("STRING"), "path", safety="safe"), ir.arg("unsafePath", P("STRING"), "path"),
+            ir.arg("safeQuery", P("STRING"), "query", "safeQuery", markers=[ir.SAFE_MARKER]),
+            ir.arg("unsafeQuery", P("STRING"), "query", "unsafeQuery"),
+            ir.arg("safeHeader", R("SafeStr"), "header", "X-Safe"), ir.arg("unsafeHeader", P("STRING"), "header", "X-Unsafe"),
+            ir.arg("dnlQuery", ir.optional(P("STRING")), "query", "dnlQuery", safety="dnl"),
+            ir.arg("safeInt", ir.optional(P("INTEGER")), "query", "safeInt", tags=["safe"]),
+            ir.arg("body", R("Inner"), "body")], returns=P("STRING"), auth="header"),
+        ir.endpoint("names", "GET", "/m/names/{type}/{fooBar}", [
+            ir.arg("type", P("INTEGER"), "path"), ir.arg("fooBar", P("UUID"), "path"),
+            ir.arg("async", P("INTEGER"), "query", "async"), ir.arg("camelCase", ir.optional(P("INTEGER")), "query", "camel-case"),
+            ir.arg("self", P("INTEGER"), "header", "X-Self"), ir.arg("snake_arg", ir.list_(P("INTEGER")), "query", "snake_arg"),
+            ir.arg("match", ir.optional(P("BOOLEAN")), "header", "X-Match")], returns=P("STRING")),
+        ir.endpoint("safeBody", "POST", "/m/safebody", [ir.arg("body", R("SafeObj"), "body"), ir.arg("n", P("INTEGER"), "query", "n")],
+                    returns=P("STRING")),
+    ]
+    return [ir.service("Matrix", eps, package=PKG)]
 
 
 ERR_CLASSES = [("String", lambda: ir.prim("STRING")), ("Int", lambda: ir.prim("INTEGER")), ("Long", lambda: ir.prim("SAFELONG")),
